@@ -164,8 +164,61 @@ func rulesC03(c *Ctx) {
 		}
 	}
 
+	// after a commit the overlay is a transparent view again: its dirty set and pending writes are reset
+	if fn := c.needFn("C03.overlay", "storage/mkvs.(*treeOverlay).Commit"); fn != nil {
+		var resets []ssa.Instruction
+		for _, b := range fn.Blocks {
+			for _, in := range b.Instrs {
+				switch x := in.(type) {
+				case *ssa.Store:
+					if vstr(x.Addr) == "param:o.dirty" && strings.HasPrefix(vstr(x.Val), "make(map[string]bool)") {
+						resets = append(resets, in)
+					}
+				case ssa.CallInstruction:
+					if calleeName(x) == "builtin.clear" && strings.HasSuffix(vstr(x.Common().Args[0]), "param:o.dirty") {
+						resets = append(resets, in)
+					}
+				}
+			}
+		}
+		clr := CallsTo(fn, "o.overlay.Clear", "github.com/tidwall/btree.(*Map).Clear", "")
+		for _, ev := range []Ev{{Name: "dirty set reset", Fn: fn, Ins: resets}, clr} {
+			ok := !ev.Empty() && Reach(fn, nil, nil, anyOf(SuccessReturns(fn)), NewCut().AddInstr(ev.Ins...)) == nil
+			c.Check(ok, "C03.overlay", fname(fn)+":success⇒"+ev.Name, c.P.Pos(fn.Pos()), "every success exit of the overlay commit has passed "+ev.Name, "the overlay's Commit can succeed without "+ev.Name+": keys it removed stay masked (and are removed again from the inner tree at the next commit) although the overlay has been applied")
+		}
+	}
+	// the merged iterator exposes a key of the inner iterator only after the dirty-skip: either the key is not dirty
+	// or the inner iterator is exhausted
+	if fn := c.needFn("C03.overlay", "storage/mkvs.(*treeOverlayIterator).updateIteratorPosition"); fn != nil {
+		var adopt []ssa.Instruction
+		for _, b := range fn.Blocks {
+			for _, in := range b.Instrs {
+				if st, ok := in.(*ssa.Store); ok && (vstr(st.Addr) == "param:it.key" || vstr(st.Addr) == "param:it.value") && strings.Contains(vstr(st.Val), "param:it.inner.") {
+					adopt = append(adopt, in)
+				}
+			}
+		}
+		c.GuardedByAny("C03.overlay", fn, "!dirty[inner.Key()] (or inner exhausted)", []string{`^!\*\*param:it\.tree\.dirty\[string\(\*param:it\.inner\.Key\(\)\)\]$`, `^!\*param:it\.inner\.Valid\(\)$`}, Ev{Name: "it.key/value = inner key/value", Fn: fn, Ins: adopt}, "an inner key that the overlay overwrote or removed must never be yielded with the inner tree's value")
+	}
+
 	// eviction safety: a pointer marked dirty is withdrawn from the eviction list (shared with C02)
 	dirtyRollbackRule(c, "C03.evict")
+	// every dereference refreshes the pointer's LRU position before anything is fetched (and therefore before anything
+	// can be evicted): the nodes on the path being traversed are the most recently used ones and are evicted last
+	if fn := c.needFn("C03.evict", "storage/mkvs.(*cache).derefNodePtr"); fn != nil {
+		use := CallsTo(fn, "c.useNode(ptr)", "storage/mkvs.(*cache).useNode", "")
+		fetch := union("fetch", CallsTo(fn, "", "storage/mkvs/db/api.(NodeDB).GetNode", ""), CallsTo(fn, "", "storage/mkvs.(*cache).remoteSync", ""), CallsTo(fn, "", "storage/mkvs.(*cache).commitNode", ""))
+		fetch.Name, fetch.Fn = "GetNode/remoteSync/commitNode", fn
+		ok := !use.Empty() && !fetch.Empty() && Reach(fn, nil, nil, anyOf(fetch.Ins), NewCut().AddInstr(use.Ins...)) == nil
+		var rets []ssa.Instruction
+		for _, r := range Returns(fn) {
+			if len(r.Results) == 2 && strings.Contains(vstr(r.Results[0]), "param:ptr.Node") {
+				rets = append(rets, r)
+			}
+		}
+		ok = ok && len(rets) > 0 && Reach(fn, nil, nil, anyOf(rets), NewCut().AddInstr(use.Ins...)) == nil
+		c.Check(ok, "C03.evict", fname(fn)+":useNode(ptr) before any fetch and before the node is handed out", c.P.Pos(fn.Pos()), "the LRU position of a dereferenced pointer is refreshed first", "derefNodePtr no longer refreshes the LRU position of the pointer before fetching/returning: ancestors on the path being traversed can become the eviction candidates while they are in use")
+	}
 	// a node that derefNodePtr itself drops from the cache must be obtained again or an error returned; it must never
 	// be answered as "empty subtree" (nil, nil): that silently deletes everything below it (F15)
 	if fn := c.needFn("C03.evict", "storage/mkvs.(*cache).derefNodePtr"); fn != nil {
